@@ -89,6 +89,7 @@ impl CaseExec for Exec {
     fn step(&mut self, op: &Op) -> String {
         match op.name.as_str() {
             "clock" => format!("t={}", verif_clock::now_ns().unwrap()),
+            "note" => "ok".into(),
             "adv" => {
                 let ns = op.u_or("ns", 0) + op.u_or("ms", 0) * 1_000_000;
                 verif_clock::advance_ns(ns);
